@@ -117,3 +117,35 @@ func (tree *Tree[T]) vtraceServe(ctx *types.Context, method string, n types.Node
 	}
 	vtraceEmit(m)
 }
+
+// VNode 仅用于验证：路由树的结构（节点内容、已注册的请求方法以及按顺序排列的子节点）。
+type VNode struct {
+	V  string   `json:"v"`
+	Ms []string `json:"ms"`
+	Ch []VNode  `json:"ch"`
+}
+
+func (n *node[T]) vdump() VNode {
+	v := VNode{V: n.segment.Value, Ms: []string{}, Ch: []VNode{}}
+	for m := range n.handlers {
+		if isCountedMethod(m) {
+			v.Ms = append(v.Ms, m)
+		}
+	}
+	sort.Strings(v.Ms)
+	for _, c := range n.children {
+		v.Ch = append(v.Ch, c.vdump())
+	}
+	return v
+}
+
+// VerifDump 仅用于验证：返回当前路由树的结构。
+func (tree *Tree[T]) VerifDump() VNode {
+	if tree.locker != nil {
+		tree.locker.RLock()
+		defer tree.locker.RUnlock()
+	}
+	v := tree.node.vdump()
+	v.Ms = []string{} // 根节点只有自动生成的 OPTIONS
+	return v
+}
